@@ -219,8 +219,11 @@ def run(ctx):
     if ctx.broken or ctx.mismatches:
         budget *= 3
     worst = 0.0
+    shared_R = Richardson()
     for _ in range(budget):
         rho, step, order, nt, length = gen_cfg(rng)
+        if rng.random() < 0.3:
+            length = rng.choice([3, 4, 6])            # few distinct lengths, so that a re-configured object sees a length again
         used = min(nt, length - 1)
         ncols = rng.choice([1, 2, 3, 4])
         h0 = Fraction(rng.choice([1, 1, 2, 3]), rng.choice([1, 2, 4, 8]))
@@ -247,7 +250,13 @@ def run(ctx):
         else:
             steps = np.array([[sgn * float(h0) / float(rho) ** t] * ncols for t in range(length)])
         key = (str(rho), step, order, nt, length, ncols, str(Ls[0]))
-        R = Richardson(step_ratio=rho, step=step, order=order, num_terms=nt)
+        # half of the time one long-lived Richardson object is re-configured through its public attributes instead of a new one
+        reused = rng.random() < 0.5
+        if reused:
+            R = shared_R
+            R.step_ratio, R.step, R.order, R.num_terms = rho, step, order, nt
+        else:
+            R = Richardson(step_ratio=rho, step=step, order=order, num_terms=nt)
         try:
             new, abserr, st = R(seq, steps)
             w = R.rule(length)
@@ -257,7 +266,8 @@ def run(ctx):
             continue
         ctx.tried(key if used > 0 else None)
         rep = dict(rho=str(rho), step=step, order=order, num_terms=nt, length=length, ncols=ncols,
-                   L=[str(x) for x in Ls], a=[[str(x) for x in a] for a in As], h0=str(h0))
+                   L=[str(x) for x in Ls], a=[[str(x) for x in a] for a in As], h0=str(h0), object_reconfigured=reused)
+        ctx.keep('Richardson', new, **rep)
         if new.shape[0] != length - used or new.shape[1:] != (ncols,):
             ctx.violation('number of outputs is not sequence length minus terms used', got=list(new.shape), **rep)
             continue
